@@ -342,6 +342,7 @@ pub enum BoardValidationError {
     InvalidCastleRights,
     InvalidEnpassant,
     TooManyPieces,
+    OpponentInCheck,
 }
 
 #[derive(Debug, Clone, Copy, PartialEq, Eq)]
@@ -399,6 +400,27 @@ impl Board {
 
         self.validate_en_passant()?;
         self.validate_castle_rights()?;
+        self.validate_opponent_not_in_check()?;
+
+        Ok(())
+    }
+
+    /// The side that just moved must not have left its own king attacked,
+    /// otherwise the side to move could capture a king
+    fn validate_opponent_not_in_check(&self) -> Result<(), BoardValidationError> {
+        let king_pos = self.king_sq(!self.turn);
+        let pieces = self.raw.all();
+        let queens = self.raw[Piece::Queen];
+
+        let attackers = (chess_lookup::knight_moves(king_pos) & self.raw[Piece::Knight])
+            | (chess_lookup::king_moves(king_pos) & self.raw[Piece::King])
+            | (chess_lookup::pawn_attacks_moves(king_pos, !self.turn) & self.raw[Piece::Pawn])
+            | (chess_lookup::rook_moves(king_pos, pieces) & (self.raw[Piece::Rook] | queens))
+            | (chess_lookup::bishop_moves(king_pos, pieces) & (self.raw[Piece::Bishop] | queens));
+
+        if (attackers & self.raw[self.turn]).any() {
+            return Err(BoardValidationError::OpponentInCheck);
+        }
 
         Ok(())
     }
